@@ -2,7 +2,10 @@ pub mod c01;
 pub mod c11;
 pub mod c12;
 pub mod front;
+pub mod c13;
 pub mod c15;
+pub mod c16;
+pub mod c19;
 
 use crate::gast;
 use crate::ggen::Case;
@@ -45,7 +48,10 @@ pub fn run(id: &str, tier: Tier, seed: u64) -> Option<Report> {
         "C01" => c01::run(tier, seed),
         "C11" => c11::run(tier, seed),
         "C12" => c12::run(tier, seed),
+        "C13" => c13::run(tier, seed),
         "C15" => c15::run(tier, seed),
+        "C16" => c16::run(tier, seed),
+        "C19" => c19::run(tier, seed),
         _ => return None,
     })
 }
@@ -55,7 +61,10 @@ pub fn replay(id: &str, phase: &str, tape: &[u16], seed: u64) -> Option<Report> 
         "C01" => c01::replay(phase, tape, seed),
         "C11" => c11::replay(phase, tape, seed),
         "C12" => c12::replay(phase, tape, seed),
+        "C13" => c13::replay(phase, tape, seed),
         "C15" => c15::replay(phase, tape, seed),
+        "C16" => c16::replay(phase, tape, seed),
+        "C19" => c19::replay(phase, tape, seed),
         _ => return None,
     })
 }
